@@ -27,7 +27,7 @@ func (c09) Assumptions() []string {
 		"every single site of each scenario is injected; pairs are sampled (seeded)",
 	}
 }
-func (c09) NumCases(tier string) int      { return tierN(tier, 150, 3000) }
+func (c09) NumCases(tier string) int      { return tierN(tier, 150, 12000) }
 func (c09) MinNontrivial(tier string) int { return tierN(tier, 20, 40) }
 func (c09) ExhaustiveNote(tier string) (bool, string) {
 	return false, "per scenario every single fault site is injected (complete enumeration of single faults); scenarios and fault pairs are sampled"
